@@ -221,7 +221,9 @@ qb_log_blackbox_print_from_file(const char *bb_filename)
 {
 	qb_ringbuffer_t *instance;
 	ssize_t bytes_read;
-	int max_size = 2 * QB_LOG_MAX_LEN;
+	/* records can be as long as the largest line length the blackbox can be
+	 * configured with (QB_LOG_CONF_MAX_LINE_LEN), not just the default */
+	int max_size = 2 * QB_LOG_ABSOLUTE_MAX_LEN;
 	/* Decoding a record reads its arguments from behind the format string
 	 * without knowing where the record ends. A damaged record can name at
 	 * most one directive per two format characters, each taking at most 8
@@ -285,7 +287,7 @@ qb_log_blackbox_print_from_file(const char *bb_filename)
 		time_t time_sec;
 		uint32_t msg_len;
 		struct tm *tm;
-		char message[QB_LOG_MAX_LEN];
+		char message[QB_LOG_ABSOLUTE_MAX_LEN];
 
 		bytes_read = qb_rb_chunk_read(instance, chunk, max_size, 0);
 
@@ -363,7 +365,7 @@ qb_log_blackbox_print_from_file(const char *bb_filename)
 		}
 		/* message length */
 		memcpy(&msg_len, ptr, sizeof(uint32_t));
-		if (msg_len > QB_LOG_MAX_LEN || msg_len <= 0) {
+		if (msg_len > QB_LOG_ABSOLUTE_MAX_LEN || msg_len <= 0) {
 #ifndef S_SPLINT_S
 			printf("ERROR Corrupt file: msg_len out of bounds %" PRIu32 "\n", msg_len);
 			err = -EIO;
@@ -381,11 +383,11 @@ qb_log_blackbox_print_from_file(const char *bb_filename)
 		}
 
 		/* message content */
-		len = qb_vsnprintf_deserialize(message, QB_LOG_MAX_LEN, ptr);
+		len = qb_vsnprintf_deserialize(message, sizeof(message), ptr);
 		assert(len > 0);
-		if (len >= QB_LOG_MAX_LEN) {
+		if (len >= sizeof(message)) {
 			/* the text filled the buffer */
-			len = QB_LOG_MAX_LEN - 1;
+			len = sizeof(message) - 1;
 		}
 		message[len] = '\0';
 		len--;
